@@ -17,7 +17,7 @@ Not decided: implicit exceptions of numeric origin (ZeroDivisionError for -f 0, 
      duplicate wires, overflow) and NaN / infinity in the output - value dependent.
 """
 import ast
-from ..model import AnalysisError, walk_no_nested, norm, dotted, parent
+from ..model import AnalysisError, walk_no_nested, norm, dotted, parent, enclosing_stmt
 from ..exc import ExcAnalysis
 from ..dataflow import possibly_undefined
 
@@ -140,6 +140,46 @@ def run(ctx, ck):
               'handler prints %d diagnostic(s) and %s' % (np_, 'returns 23' if r23 else 'does NOT return 23'))
     # handlers in the module-level helpers main delegates option parsing to: one diagnostic, then the
     # helper reports the failure to main by its return value
+    def text_result(v):
+        """a diagnostic text: a string literal, a %-format of one, an f-string, str.format"""
+        if isinstance(v, ast.Constant) and isinstance(v.value, str):
+            return True
+        if isinstance(v, ast.JoinedStr):
+            return True
+        if isinstance(v, ast.BinOp) and isinstance(v.op, (ast.Mod, ast.Add)):
+            return text_result(v.left)
+        if isinstance(v, ast.Call) and isinstance(v.func, ast.Attribute) and v.func.attr == 'format':
+            return text_result(v.func.value)
+        return False
+
+    def caller_prints_text(g_):
+        """every call of the helper in main is `r = helper(...)` followed by `if isinstance(r, str): print(r ...); return 23`"""
+        sites = [c for c in ast.walk(mainf.node) if isinstance(c, ast.Call) and isinstance(c.func, ast.Name) and c.func.id == g_.name]
+        if not sites:
+            return False
+        for c in sites:
+            st = enclosing_stmt(c)
+            if not (isinstance(st, ast.Assign) and len(st.targets) == 1 and isinstance(st.targets[0], ast.Name) and st.value is c):
+                return False
+            r_ = st.targets[0].id
+            blk = None
+            p_ = parent(st)
+            for fld in ('body', 'orelse', 'finalbody'):
+                lst = getattr(p_, fld, None)
+                if isinstance(lst, list) and any(y is st for y in lst):
+                    blk = lst
+            if blk is None:
+                return False
+            k = [i for i, y in enumerate(blk) if y is st][0]
+            nxt = blk[k + 1] if k + 1 < len(blk) else None
+            if not (isinstance(nxt, ast.If) and norm(nxt.test) in ('isinstance(%s, str)' % r_, 'type(%s) is str' % r_)):
+                return False
+            prints = [x for s_ in nxt.body for x in ast.walk(s_) if isinstance(x, ast.Call) and isinstance(x.func, ast.Name)
+                      and x.func.id == 'print' and any(isinstance(a_, ast.Name) and a_.id == r_ for a_ in x.args)]
+            lastb = nxt.body[-1] if nxt.body else None
+            if len(prints) != 1 or not (isinstance(lastb, ast.Return) and isinstance(lastb.value, ast.Constant) and lastb.value.value == 23):
+                return False
+        return True
     for q_ in sorted(ea.entry_helpers()):
         g_ = m.funcs[q_]
         for h in [x for x in walk_no_nested(g_.node) if isinstance(x, ast.ExceptHandler)]:
@@ -148,9 +188,14 @@ def run(ctx, ck):
             n_h += 1
             key = '%s|except %s|%s' % (g_.name, norm(h.type) if h.type is not None else '<bare>',
                                        norm(h.body[0])[:50] if h.body else '')
-            ck.ob('R-EXC.handler-shape', key, np_ == 1 and isinstance(last, ast.Return) and h.type is not None, g_.loc(h),
-                  'handler prints %d diagnostic(s) and %s' % (np_, 'returns to main' if isinstance(last, ast.Return)
-                                                                  else 'does NOT return'))
+            ok_h = np_ == 1 and isinstance(last, ast.Return) and h.type is not None
+            how_ = 'handler prints %d diagnostic(s) and %s' % (np_, 'returns to main' if isinstance(last, ast.Return)
+                                                               else 'does NOT return')
+            if not ok_h and np_ == 0 and isinstance(last, ast.Return) and h.type is not None and text_result(last.value) and \
+               caller_prints_text(g_):
+                # the other accepted shape: the helper hands the text of the diagnostic back, main prints it and returns 23
+                ok_h, how_ = True, 'handler returns the diagnostic text; main prints it and returns 23'
+            ck.ob('R-EXC.handler-shape', key, ok_h, g_.loc(h), how_)
     ck.floor('exception handlers in main', n_h, 20)
     # sorting records: `sorted(X)` / `X.sort()` without a key compares whole entries; when two entries tie
     # on their first field the next fields are compared - bound methods, arrays, None - and TypeError /
